@@ -234,8 +234,12 @@ def gen_settings(rng, lo, method=None):
             thr = {('burst_fraction' if k == 'burst_fraction_threshold' else k): v for k, v in thr.items()}
     if rng.random() < 0.85:
         s['thresholds'] = thr
-    if rng.random() < 0.4:
-        s['find_extrema_kwargs'] = {'filter_kwargs': {'n_cycles': int(rng.choice([2, 3, 5]))}, 'boundary': int(rng.choice([0, 4]))}
+    if rng.random() < 0.5:
+        # every documented shape of the option dict: with / without 'filter_kwargs', boundary, pad, empty
+        fek = gen.gen_find_extrema_kwargs(rng, 250., lo, allow_none=False)
+        if 'boundary' in fek and fek['boundary'] > 12:
+            fek['boundary'] = 12
+        s['find_extrema_kwargs'] = fek
     if rng.random() < 0.2:
         s['return_samples'] = False
     return s
